@@ -51,6 +51,49 @@ func (c *Ctx) bodyPrinter() (*core.Func, *ast.CallExpr, *ast.CallExpr) {
 	return nil, nil, nil
 }
 
+// flushRegion: the printer functions on the way from newline() to the function
+// that prints bodies (the flusher, and helpers it was split into).
+func (c *Ctx) flushRegion(nl, body *core.Func) map[*core.Func]bool {
+	out := map[*core.Func]bool{}
+	if nl == nil || body == nil {
+		return out
+	}
+	cg := c.P.CG()
+	from := cg.Reachable(nl)
+	for f := range from {
+		if f == nl || f.Pkg != body.Pkg || f.Decl == nil {
+			continue
+		}
+		if f == body || cg.Reachable(f)[body] {
+			out[f] = true
+		}
+	}
+	// helpers the region calls that touch the stack (`pending()`)
+	stack := c.fieldVar("printer", "printer", "stack")
+	for f := range from {
+		if out[f] || f == nl || f.Pkg != body.Pkg || f.Decl == nil || stack == nil {
+			continue
+		}
+		called := false
+		for g := range out {
+			if cg.Edges[g][f] {
+				called = true
+			}
+		}
+		if !called {
+			continue
+		}
+		info := f.Info()
+		f.OwnNodes(func(n ast.Node) bool {
+			if se, ok := n.(*ast.SelectorExpr); ok && core.FieldOf(info, se) == stack {
+				out[f] = true
+			}
+			return true
+		})
+	}
+	return out
+}
+
 // PR2: body and delimiter are kept apart.
 func rulePR2() Rule {
 	return Rule{ID: "PR2", Kind: "must", Floor: 1,
@@ -111,6 +154,28 @@ func rulePR2() Rule {
 							nonEmpty = true
 						}
 					}
+					// or a predicate of the package that is handed the body and answers false for an empty one
+					ast.Inspect(ifs.Cond, func(y ast.Node) bool {
+						pc, isCall := y.(*ast.CallExpr)
+						if !isCall {
+							return true
+						}
+						handed := -1
+						for i, a := range pc.Args {
+							if fieldOfRedir(info, a, "Heredoc") {
+								handed = i
+							}
+						}
+						if handed < 0 {
+							return true
+						}
+						if fo := core.StaticCallee(info, pc); fo != nil {
+							if h := c.P.FuncOf(fo); h != nil && h.Body != nil && c.falseForEmpty(h, handed) {
+								nonEmpty = true
+							}
+						}
+						return true
+					})
 					for _, part := range []ast.Node{ifs.Init, ifs.Cond} {
 						if part == nil || (part == ast.Node(ifs.Init) && ifs.Init == nil) {
 							continue
@@ -225,6 +290,7 @@ func rulePR4() Rule {
 				}
 				return false
 			}
+			region := c.flushRegion(nl, flusher)
 			// (a) newline flushes first
 			fl := core.NewFlow(nl)
 			flushed := fl.MustSeen(false, func(n ast.Node) bool {
@@ -233,7 +299,7 @@ func rulePR4() Rule {
 					return false
 				}
 				fo := core.StaticCallee(info, call)
-				return fo != nil && c.effective(c.P.FuncOf(fo)) == flusher
+				return fo != nil && (c.effective(c.P.FuncOf(fo)) == flusher || region[c.P.FuncOf(fo)])
 			}, nil)
 			nw := 0
 			nl.OwnNodes(func(n ast.Node) bool {
@@ -253,25 +319,33 @@ func rulePR4() Rule {
 			}
 			// (b) the flusher looks at every frame: it ranges or counts over the stack
 			all := false
-			fi := flusher.Info()
-			flusher.OwnNodes(func(n ast.Node) bool {
-				switch x := n.(type) {
-				case *ast.RangeStmt:
-					if core.FieldOf(fi, x.X) == stack {
-						all = true
-					}
-				case *ast.ForStmt:
-					if x.Cond != nil {
-						ast.Inspect(x.Cond, func(y ast.Node) bool {
-							if call, ok := y.(*ast.CallExpr); ok && isBuiltinCall(fi, call, "len") && len(call.Args) == 1 && core.FieldOf(fi, call.Args[0]) == stack {
-								all = true
-							}
-							return true
-						})
-					}
+			members := []*core.Func{flusher}
+			for g := range region {
+				if g != flusher {
+					members = append(members, g)
 				}
-				return true
-			})
+			}
+			for _, g := range members {
+				gi := g.Info()
+				g.OwnNodes(func(n ast.Node) bool {
+					switch x := n.(type) {
+					case *ast.RangeStmt:
+						if core.FieldOf(gi, x.X) == stack {
+							all = true
+						}
+					case *ast.ForStmt:
+						if x.Cond != nil {
+							ast.Inspect(x.Cond, func(y ast.Node) bool {
+								if call, ok := y.(*ast.CallExpr); ok && isBuiltinCall(gi, call, "len") && len(call.Args) == 1 && core.FieldOf(gi, call.Args[0]) == stack {
+									all = true
+								}
+								return true
+							})
+						}
+					}
+					return true
+				})
+			}
 			key := flusher.Name + "|every frame of the line"
 			if all {
 				rr.OK(flusher, key, flusher.Pos(), "all-frames", "the pending redirections of all frames are taken")
@@ -298,14 +372,17 @@ func rulePR4() Rule {
 				finfo := f.Info()
 				// fields the flusher reads
 				read := map[*types.Var]bool{}
-				flusher.OwnNodes(func(n ast.Node) bool {
-					if se, ok := n.(*ast.SelectorExpr); ok {
-						if v := core.FieldOf(fi, se); v != nil && isIntegerType(v.Type()) {
-							read[v] = true
+				for _, g := range members {
+					gi := g.Info()
+					g.OwnNodes(func(n ast.Node) bool {
+						if se, ok := n.(*ast.SelectorExpr); ok {
+							if v := core.FieldOf(gi, se); v != nil && isIntegerType(v.Type()) {
+								read[v] = true
+							}
 						}
-					}
-					return true
-				})
+						return true
+					})
+				}
 				raised := core.NewFlow(f).MustSeen(false, func(n ast.Node) bool {
 					as, ok := n.(*ast.AssignStmt)
 					if !ok || len(as.Lhs) != 1 || len(as.Rhs) != 1 {
@@ -342,7 +419,7 @@ func rulePR4() Rule {
 				}
 			}
 			for _, f := range c.funcsOfPkg("printer", false) {
-				if f == nl || f.Root() == flusher {
+				if f == nl || f.Root() == flusher || region[f.Root()] {
 					continue
 				}
 				finfo := f.Info()
@@ -747,4 +824,75 @@ func ruleAL5() Rule {
 				rr.Unkp(c.P, "parser|blank flag", 0, "the blank flag is never read")
 			}
 		}}
+}
+
+// falseForEmpty: predicate h answers false when its argument number idx is
+// empty: a return of the constant false is guarded by `len(param) == 0` (or by
+// a variable bound to that length compared with 0).
+func (c *Ctx) falseForEmpty(h *core.Func, idx int) bool {
+	if h.Type.Params == nil {
+		return false
+	}
+	info := h.Info()
+	var pv types.Object
+	k := 0
+	for _, fld := range h.Type.Params.List {
+		for _, nm := range fld.Names {
+			if k == idx {
+				pv = info.Defs[nm]
+			}
+			k++
+		}
+	}
+	if pv == nil {
+		return false
+	}
+	lenVars := map[types.Object]bool{}
+	h.OwnNodes(func(n ast.Node) bool {
+		as, ok := n.(*ast.AssignStmt)
+		if !ok || len(as.Lhs) != len(as.Rhs) {
+			return true
+		}
+		for i, r := range as.Rhs {
+			if lc, isCall := ast.Unparen(r).(*ast.CallExpr); isCall && isBuiltinCall(info, lc, "len") && len(lc.Args) == 1 {
+				if id, isID := ast.Unparen(lc.Args[0]).(*ast.Ident); isID && info.Uses[id] == pv {
+					if lid, isL := as.Lhs[i].(*ast.Ident); isL {
+						if o := info.Defs[lid]; o != nil {
+							lenVars[o] = true
+						}
+					}
+				}
+			}
+		}
+		return true
+	})
+	found := false
+	h.OwnNodes(func(n ast.Node) bool {
+		ret, ok := n.(*ast.ReturnStmt)
+		if !ok || len(ret.Results) != 1 {
+			return true
+		}
+		if tv, has := info.Types[ret.Results[0]]; !has || tv.Value == nil || tv.Value.String() != "false" {
+			return true
+		}
+		for _, gd := range guardsOf(c.P, ret, nil) {
+			be, isBE := ast.Unparen(gd.cond).(*ast.BinaryExpr)
+			if !isBE || !gd.pos || be.Op != token.EQL {
+				continue
+			}
+			if v, isC := constInt(info, be.Y); !isC || v != 0 {
+				continue
+			}
+			if id, isID := ast.Unparen(be.X).(*ast.Ident); isID && lenVars[info.Uses[id]] {
+				found = true
+			}
+			if lc, isCall := ast.Unparen(be.X).(*ast.CallExpr); isCall && isBuiltinCall(info, lc, "len") && len(lc.Args) == 1 {
+				if id, isID := ast.Unparen(lc.Args[0]).(*ast.Ident); isID && info.Uses[id] == pv {
+					found = true
+				}
+			}
+		}
+		return true
+	})
+	return found
 }
